@@ -97,6 +97,89 @@ func Equal(a, b Value) bool {
 	return false
 }
 
+// DeepEqual compares evaluated aggregates structurally (positions ignored; unknown values are never equal).
+func DeepEqual(a, b Value) bool {
+	switch x := a.(type) {
+	case Int, Str, Bool, Float:
+		return Equal(a, b)
+	case Nil:
+		_, ok := b.(Nil)
+		return ok
+	case nil:
+		return b == nil
+	case *Ptr:
+		y, ok := b.(*Ptr)
+		return ok && DeepEqual(x.Elem, y.Elem)
+	case *Struct:
+		y, ok := b.(*Struct)
+		if !ok || y == nil || x == nil {
+			return ok && x == y
+		}
+		if x.Type != y.Type || len(x.Fields) != len(y.Fields) {
+			return false
+		}
+		for k, v := range x.Fields {
+			w, ok := y.Fields[k]
+			if !ok || !DeepEqual(v, w) {
+				return false
+			}
+		}
+		return true
+	case *Slice:
+		y, ok := b.(*Slice)
+		if !ok || y == nil || x == nil {
+			return ok && x == y
+		}
+		if len(x.Elems) != len(y.Elems) {
+			return false
+		}
+		for i := range x.Elems {
+			if !DeepEqual(x.Elems[i], y.Elems[i]) {
+				return false
+			}
+		}
+		return true
+	case *Map:
+		y, ok := b.(*Map)
+		if !ok || y == nil || x == nil {
+			return ok && x == y
+		}
+		if len(x.Entries) != len(y.Entries) {
+			return false
+		}
+		for _, e := range x.Entries {
+			w, ok := y.Get(e.K)
+			if !ok || !DeepEqual(e.V, w) {
+				return false
+			}
+		}
+		return true
+	case *Call:
+		y, ok := b.(*Call)
+		if !ok || x.Fn != y.Fn || len(x.Args) != len(y.Args) {
+			return false
+		}
+		for i := range x.Args {
+			if !DeepEqual(x.Args[i], y.Args[i]) {
+				return false
+			}
+		}
+		return true
+	case Tuple:
+		y, ok := b.(Tuple)
+		if !ok || len(x) != len(y) {
+			return false
+		}
+		for i := range x {
+			if !DeepEqual(x[i], y[i]) {
+				return false
+			}
+		}
+		return true
+	}
+	return false
+}
+
 func Show(v Value) string {
 	switch x := v.(type) {
 	case nil:
@@ -391,6 +474,16 @@ func (ev *Evaluator) Eval(e ast.Expr, env *Env) Value {
 				return ev.unk(x, "package variable "+x.Name+" is written after initialisation")
 			}
 			return ev.Eval(init, NewEnv(nil))
+		}
+		// a function of the package used as a value
+		if fn, ok := o.(*types.Func); ok && fn.Pkg() == ev.Pkg.Types {
+			for _, file := range ev.Pkg.Syntax {
+				for _, d := range file.Decls {
+					if fd, ok := d.(*ast.FuncDecl); ok && fd.Body != nil && fd.Recv == nil && ev.Info.Defs[fd.Name] == o {
+						return &FuncRef{Decl: fd}
+					}
+				}
+			}
 		}
 		return ev.unk(x, "unbound identifier "+x.Name)
 	case *ast.FuncLit:
@@ -795,13 +888,43 @@ func (ev *Evaluator) evalCall(x *ast.CallExpr, env *Env) Value {
 	}
 	// a function literal or a variable holding one
 	switch x.Fun.(type) {
-	case *ast.FuncLit, *ast.Ident:
-		if cl, ok := ev.Eval(x.Fun, env).(*Closure); ok {
+	case *ast.FuncLit, *ast.Ident, *ast.IndexExpr, *ast.SelectorExpr, *ast.CallExpr:
+		fv := ev.Eval(x.Fun, env)
+		if cl, ok := fv.(*Closure); ok {
 			var args []Value
 			for _, a := range x.Args {
 				args = append(args, ev.copyIfValueType(ev.Eval(a, env), ev.Info.TypeOf(a)))
 			}
 			return ev.callClosure(cl, args, x)
+		}
+		if fr, ok := fv.(*FuncRef); ok {
+			bind := map[string]Value{}
+			i := 0
+			for _, f := range fr.Decl.Type.Params.List {
+				for _, n := range f.Names {
+					if i < len(x.Args) {
+						bind[n.Name] = ev.copyIfValueType(ev.Eval(x.Args[i], env), ev.Info.TypeOf(x.Args[i]))
+					}
+					i++
+				}
+				if len(f.Names) == 0 {
+					i++
+				}
+			}
+			ev.depth++
+			if ev.depth > 16 {
+				ev.depth--
+				return ev.unk(x, "call depth")
+			}
+			res, ok := ev.Call(fr.Decl, bind)
+			ev.depth--
+			if !ok {
+				return ev.unk(x, "callee left the evaluable subset")
+			}
+			if len(res) == 1 {
+				return res[0]
+			}
+			return Tuple(res)
 		}
 	}
 	// sort.Search(n, f): the smallest index in [0, n) for which f is true, by the library's binary search
@@ -940,6 +1063,9 @@ const (
 type Frame struct {
 	Results []Value
 }
+
+// FuncRef is a declared function of the package used as a value.
+type FuncRef struct{ Decl *ast.FuncDecl }
 
 // Closure is a function literal with the environment it was created in (variables captured by reference).
 type Closure struct {
